@@ -1,4 +1,5 @@
 import GceTcb.Proofs.Kms
+import GceTcb.Proofs.Crc32c
 /-
 C20 — Cloud KMS signing and key lifecycle are integrity-checked and complete.
 Property theorems only (helper lemmas live in Proofs/Kms.lean; the model in Model/Kms.lean).
@@ -6,8 +7,9 @@ Property theorems only (helper lemmas live in Proofs/Kms.lean; the model in Mode
 The model is the code after the commit "fix: iterate KMS listings until the next-page token is empty"
 (`Style.fixed`); the loop before the fix (`Style.old`) is kept for the two witnesses `C20_old_loop_*`.
 Everything is stated for an arbitrary service: arbitrary pagers, version sets, fault scripts, poll answers.
-CRC32C is an abstract `crc`; its single-bit property is the hypothesis `CrcSingleBit` of the one corollary
-that needs it.
+CRC32C is an abstract `crc` in the general theorems; the single-bit corollary is stated for any `crc` with
+`CrcSingleBit` and then, without hypothesis, for the executable CRC32C of the model (`C20_crc32c_single_bit`,
+`C20_sign_detects_single_bit_crc32c`), which the driver compares with Go's hash/crc32 on every run.
 -/
 namespace GceTcb.Kms
 
@@ -105,6 +107,19 @@ theorem C20_sign_detects_single_bit (crc : Bytes → Nat) (crc_single_bit : CrcS
   rw [hflip, hsum]
   intro h
   exact crc_single_bit sig0 i hi (Int.ofNat.inj h)
+
+/-- CRC32C itself (the executable `crc32c` the driver checks against hash/crc32) changes under every single
+    flipped bit of every byte string: the former trusted hypothesis is a theorem. -/
+theorem C20_crc32c_single_bit : CrcSingleBit crc32c := crc32c_single_bit
+
+/-- The single-bit clause with nothing assumed about the checksum. -/
+theorem C20_sign_detects_single_bit_crc32c
+    (svc : SignReq → Option SignResp) (name : String) (digest : Bytes) (opts : SignerOpts)
+    (sig0 : Bytes) (i : Nat) (hi : i < 8 * sig0.length) (r : SignResp)
+    (hr : svc (mkSignReq crc32c name digest) = some r)
+    (hflip : r.signature = flipBit sig0 i) (hsum : r.sigCrc = crc32c sig0) :
+    ∀ s, (sign crc32c svc name digest opts).out ≠ .sig s :=
+  C20_sign_detects_single_bit crc32c crc32c_single_bit svc name digest opts sig0 i hi r hr hflip hsum
 
 /-- The clause "the response names the requested key version" (Cloud KMS data-integrity guidelines) —
     not part of the property text, and not checked by sign.go. -/
